@@ -859,8 +859,12 @@ pub fn run_hist(
         status = "openfail".into();
         detail = e;
     } else {
-        sess.observe();
-        let nops = fixed.map_or(cfg.nops, |r| r.ops.len());
+        if std::panic::catch_unwind(std::panic::AssertUnwindSafe(|| sess.observe())).is_err() {
+            status = "clientpanic".into();
+            detail = format!("client call panicked after open during {}", sess.wd.current());
+            sess.wd.leave();
+        }
+        let nops = if status == "ok" { fixed.map_or(cfg.nops, |r| r.ops.len()) } else { 0 };
         let early_at = rng.gen_range(1..4usize);
         let early_gap = rng.gen_range(2..9usize);
         for i in 0..nops {
@@ -900,13 +904,25 @@ pub fn run_hist(
             if let Op::Reopen { .. } = op {
                 reopens += 1;
             }
-            sess.apply(&op);
+            // a panic of the code under test inside a client call is an observation (the call did
+            // not return), not a crash of the driver: the run ends here, nothing is dropped
+            let stepped = std::panic::catch_unwind(std::panic::AssertUnwindSafe(|| {
+                sess.apply(&op);
+                if sess.db.is_some() {
+                    sess.observe();
+                }
+            }));
+            if stepped.is_err() {
+                status = "clientpanic".into();
+                detail = format!("client call panicked at op {} during {}", i, sess.wd.current());
+                sess.wd.leave();
+                break;
+            }
             if sess.db.is_none() {
                 status = "openfail".into();
                 detail = format!("reopen failed at op {}", i);
                 break;
             }
-            sess.observe();
             if let Some(d) = sess
                 .db
                 .as_ref()
@@ -930,36 +946,52 @@ pub fn run_hist(
         }
         if status == "ok" {
             // final quiescent dump with everything released, then a clean reopen
-            let n = sess.iters.len();
-            for _ in 0..n {
-                let it = sess.iters.pop();
-                drop(it);
-            }
-            if let Some(db) = sess.db.as_ref() {
-                for s in sess.snaps.drain(..) {
-                    db.release_snapshot(s);
+            let fin = std::panic::catch_unwind(std::panic::AssertUnwindSafe(|| {
+                let n = sess.iters.len();
+                for _ in 0..n {
+                    let it = sess.iters.pop();
+                    drop(it);
                 }
-            }
-            sess.quiesce();
-            let o = sess.opts.clone();
-            sess.close();
-            if sess.open(&o).is_ok() {
-                sess.observe();
+                if let Some(db) = sess.db.as_ref() {
+                    for s in sess.snaps.drain(..) {
+                        db.release_snapshot(s);
+                    }
+                }
                 sess.quiesce();
-            } else {
-                status = "openfail".into();
-                detail = "final reopen failed".into();
+                let o = sess.opts.clone();
+                sess.close();
+                if sess.open(&o).is_ok() {
+                    sess.observe();
+                    sess.quiesce();
+                    true
+                } else {
+                    false
+                }
+            }));
+            match fin {
+                Ok(true) => {}
+                Ok(false) => {
+                    status = "openfail".into();
+                    detail = "final reopen failed".into();
+                }
+                Err(_) => {
+                    status = "clientpanic".into();
+                    detail = format!("client call panicked in the final phase during {}", sess.wd.current());
+                    sess.wd.leave();
+                }
             }
         }
     }
     let panics = peek_panics();
+    let during = if status == "clientpanic" { sess.wd.current() } else { String::new() };
     for p in &panics {
         sink.emit_json(
             "Panic",
-            json!({"thread": p.thread, "msg": p.message, "loc": p.location}),
+            json!({"thread": p.thread, "msg": p.message, "loc": p.location,
+                   "during": if p.thread == "bg" { "" } else { during.as_str() }}),
         );
     }
-    if status == "bgpanic" {
+    if status == "bgpanic" || status == "clientpanic" {
         // the database cannot be closed any more (Drop would wait for the dead worker): leak it
         let n = sess.iters.len();
         for _ in 0..n {
